@@ -61,6 +61,9 @@ class World(object):
         self.digest = hashlib.sha256()
         self.trace = []              # executed events with outcomes
         self.keep_trace = True
+        import os as _os
+        vf = _os.environ.get('VERIF_TRACE_FROM')
+        self.verbose_from = int(vf) if vf else None
         nv = cfg.get('n_voters', 3)
         nro = cfg.get('n_ro', 0)
         nextra = cfg.get('n_spare', 0)      # hosts that may be added later (C10)
@@ -192,6 +195,7 @@ class World(object):
             else:
                 touched = i
                 self.cur = i
+                self.tick_start_mono = self.mono()
                 try:
                     h.node._onTick(0.0)
                 except HarnessError:
@@ -289,6 +293,9 @@ class World(object):
                 out, touched = out
         if self.oracle is not None:
             self.oracle.after_event(ev, out, touched)
+        if self.verbose_from is not None and self.evno >= self.verbose_from:
+            print(self.evno, 'T=%.4f' % self.T, ev, out, [self.state_line(h.idx) for h in self.hosts],
+                  self.step_applies or '', self.step_loads or '', self.step_callbacks or '')
         if self.keep_trace:
             self.trace.append(ev)
         self.digest.update(repr((ev, out)).encode())
